@@ -22,12 +22,12 @@ func TestMain(m *testing.M) {
 
 // Op is one request of one user.
 type Op struct {
-	User   int      `json:"user"`
-	Kind   string   `json:"kind"` // createV2 | createV1 | deleteCol | insert | update | deletePoints
-	Col    string   `json:"col"`
-	Points []int    `json:"points"` // indexes into the id pool
-	Tag    string   `json:"tag"`    // value written into the documents
-	With   *Op      `json:"with,omitempty"` // an operation of another user issued concurrently
+	User   int    `json:"user"`
+	Kind   string `json:"kind"` // createV2 | createV1 | deleteCol | insert | update | deletePoints
+	Col    string `json:"col"`
+	Points []int  `json:"points"`         // indexes into the id pool
+	Tag    string `json:"tag"`            // value written into the documents
+	With   *Op    `json:"with,omitempty"` // an operation of another user issued concurrently
 }
 
 type Case struct {
@@ -48,7 +48,13 @@ func poolId(user, i int) string {
 
 func genUsers(t *rapid.T) []string {
 	base := rapid.SampledFrom([]string{"al", "u", "user1", "A", "tenant"}).Draw(t, "base")
-	cands := []string{base, base + "i", base + "ice", base + "abc", base + "abcd", base + "-abc", base + "_", base + " ", strings.ToUpper(base), base + "1", base + "10", base + "é", base + "abcx", "abc", base + "abc" + "x"}
+	cands := []string{base, base + "i", base + "ice", base + "abc", base + "abcd", base + "-abc", base + "_", base + " ", strings.ToUpper(base), base + "1", base + "10", base + "é", base + "abcx", "abc", base + "abc" + "x",
+		// ids that differ only in one punctuation character (any sanitising of ids must stay injective)
+		base + "|1", base + "_1", base + ":1", base + "-1", base + ".1", base + "%1", base + "+1", base + "*1", base + "?1", base + "\\1", base + "<1", base + ">1", base + "\"1"}
+	if rapid.IntRange(0, 3).Draw(t, "punct") == 0 {
+		// prefer the punctuation family
+		cands = cands[len(cands)-13:]
+	}
 	n := rapid.IntRange(2, 3).Draw(t, "nusers")
 	perm := rapid.Permutation(cands).Draw(t, "users")
 	seen := map[string]bool{}
@@ -65,13 +71,13 @@ func genUsers(t *rapid.T) []string {
 	return users
 }
 
-func genOp(t *rapid.T, label string, nusers int, fixedUser int) Op {
+func genOp(t *rapid.T, label string, nusers int, fixedUser int, ncols int) Op {
 	op := Op{User: fixedUser}
 	if fixedUser < 0 {
 		op.User = rapid.IntRange(0, nusers-1).Draw(t, label+"-user")
 	}
 	op.Kind = rapid.SampledFrom([]string{"createV2", "createV2", "createV1", "deleteCol", "insert", "insert", "insert", "update", "deletePoints"}).Draw(t, label+"-kind")
-	op.Col = rapid.SampledFrom(colNames).Draw(t, label+"-col")
+	op.Col = rapid.SampledFrom(colNames[:ncols]).Draw(t, label+"-col")
 	if op.Kind == "insert" || op.Kind == "update" || op.Kind == "deletePoints" {
 		n := rapid.IntRange(1, 3).Draw(t, label+"-n")
 		seen := map[int]bool{}
@@ -89,15 +95,16 @@ func genOp(t *rapid.T, label string, nusers int, fixedUser int) Op {
 
 func genCase(t *rapid.T) Case {
 	c := Case{Users: genUsers(t), MaxCollections: rapid.IntRange(1, 3).Draw(t, "maxCols"), MaxPoints: int64(rapid.IntRange(2, 8).Draw(t, "maxPoints"))}
+	ncols := rapid.SampledFrom([]int{1, 2, 4}).Draw(t, "ncols")
 	n := rapid.IntRange(2, 16).Draw(t, "nops")
 	if vt.Thorough() {
 		n = rapid.IntRange(2, 40).Draw(t, "nopsT")
 	}
 	for i := 0; i < n; i++ {
-		op := genOp(t, fmt.Sprintf("op%d", i), len(c.Users), -1)
+		op := genOp(t, fmt.Sprintf("op%d", i), len(c.Users), -1, ncols)
 		if rapid.IntRange(0, 4).Draw(t, fmt.Sprintf("conc%d", i)) == 0 {
 			other := (op.User + 1 + rapid.IntRange(0, len(c.Users)-2).Draw(t, fmt.Sprintf("concu%d", i))) % len(c.Users)
-			w := genOp(t, fmt.Sprintf("op%dw", i), len(c.Users), other)
+			w := genOp(t, fmt.Sprintf("op%dw", i), len(c.Users), other, ncols)
 			op.With = &w
 		}
 		c.Ops = append(c.Ops, op)
